@@ -9,7 +9,42 @@ import (
 	zz "github.com/snapcore/snapd/zzverif"
 )
 
+// c05sym says which part of the saved state is symbolic in the running harness; the rest is
+// concrete, so that the three harnesses add up instead of multiplying.
+var c05sym struct{ change, task, notice bool }
+
+func c05on(name string) bool {
+	switch name[0] {
+	case 'c':
+		if len(name) > 6 && name[4] == '.' && name[5] == 't' {
+			// one task (of the first change) is symbolic at a time
+			return c05sym.task && name[3] == '0' && int(name[6]-'0') == zz.Param("c05.symtask", 0)
+		}
+		return c05sym.change
+	case 'e':
+		return true
+	}
+	return c05sym.notice
+}
+
+func c05bool(name string) bool {
+	if !c05on(name) {
+		return len(name)%2 == 0
+	}
+	return zz.NondetBool(name)
+}
+
+func c05int(name string) int {
+	if !c05on(name) {
+		return len(name)
+	}
+	return zz.NondetInt(name)
+}
+
 func c05time(name string) time.Time {
+	if !c05on(name) {
+		return time.Unix(1600000000+int64(len(name)), 5).UTC()
+	}
 	sec := zz.NondetI64(name + ".sec")
 	nsec := int64(zz.NondetU32(name+".nsec") & 0x3fffffff)
 	zz.Assume(zz.And(zz.And(sec >= 1000000000, sec < 4000000000), nsec < 1000000000))
@@ -17,13 +52,16 @@ func c05time(name string) time.Time {
 }
 
 func c05maybeTime(name string) time.Time {
-	if zz.NondetBool(name + ".set") {
+	if c05bool(name + ".set") {
 		return c05time(name)
 	}
 	return time.Time{}
 }
 
 func c05status(name string, lo int) Status {
+	if !c05on(name) {
+		return Status(lo + len(name)%(10-lo))
+	}
 	s := zz.NondetInt(name)
 	zz.Assume(zz.And(s >= lo, s <= 10))
 	return Status(s)
@@ -41,7 +79,22 @@ func c05sameStrings(a, b []string) bool {
 	return true
 }
 
-func Harness_C05_RoundTrip() {
+func Harness_C05_Change() {
+	c05sym.change = true
+	c05roundTrip()
+}
+
+func Harness_C05_Task() {
+	c05sym.task = true
+	c05roundTrip()
+}
+
+func Harness_C05_NoticesAndIDs() {
+	c05sym.notice = true
+	c05roundTrip()
+}
+
+func c05roundTrip() {
 	fixed := time.Unix(1700000000, 0)
 	timeNow = func() time.Time { return fixed }
 	zz.Stub("time.Now", func() time.Time { return fixed })
@@ -55,7 +108,7 @@ func Harness_C05_RoundTrip() {
 		cn := "chg" + string(rune('0'+c))
 		chg := st.NewChange("kind-"+cn, "summary-"+cn)
 		chg.status = c05status(cn+".status", 0)
-		chg.clean = zz.NondetBool(cn + ".clean")
+		chg.clean = c05bool(cn + ".clean")
 		chg.spawnTime = c05time(cn + ".spawn")
 		chg.readyTime = c05maybeTime(cn + ".ready")
 		chg.lastRecordedNoticeStatus = c05status(cn+".noticestatus", 0)
@@ -65,24 +118,24 @@ func Harness_C05_RoundTrip() {
 			tn := cn + ".t" + string(rune('0'+k))
 			t := st.NewTask("kind-"+tn, "summary-"+tn)
 			chg.AddTask(t)
-			if prev != nil && zz.NondetBool(tn+".waits") {
+			if prev != nil && c05bool(tn+".waits") {
 				t.WaitFor(prev)
 			}
-			if zz.NondetBool(tn + ".lane") {
+			if c05bool(tn + ".lane") {
 				t.JoinLane(st.NewLane())
 			}
 			t.status = c05status(tn+".status", 0)
 			t.waitedStatus = c05status(tn+".waited", 1)
 			zz.Assume(t.waitedStatus != WaitStatus)
-			t.clean = zz.NondetBool(tn + ".clean")
-			if zz.NondetBool(tn + ".hasprogress") {
-				t.progress = &progress{Label: "dl", Done: zz.NondetInt(tn + ".done"), Total: zz.NondetInt(tn + ".total")}
+			t.clean = c05bool(tn + ".clean")
+			if c05bool(tn + ".hasprogress") {
+				t.progress = &progress{Label: "dl", Done: c05int(tn + ".done"), Total: c05int(tn + ".total")}
 			}
 			t.spawnTime = c05time(tn + ".spawn")
 			t.readyTime = c05maybeTime(tn + ".ready")
 			t.atTime = c05maybeTime(tn + ".at")
-			t.doingTime = time.Duration(zz.NondetI64(tn + ".doing"))
-			t.undoingTime = time.Duration(zz.NondetI64(tn + ".undoing"))
+			t.doingTime = time.Duration(c05int(tn + ".doing"))
+			t.undoingTime = time.Duration(c05int(tn + ".undoing"))
 			t.log = []string{"2024-01-01T00:00:00Z INFO hello"}
 			t.Set("k", "v")
 			prev = t
@@ -93,18 +146,26 @@ func Harness_C05_RoundTrip() {
 	// a notice and a warning
 	nLast := c05time("notice.last")
 	var uid *uint32
-	if zz.NondetBool("notice.hasuser") {
-		u := zz.NondetU32("notice.user")
+	if c05bool("notice.hasuser") {
+		u := uint32(c05int("notice.user"))
 		uid = &u
 	}
-	occ := zz.NondetInt("notice.occurrences")
+	occ := c05int("notice.occurrences")
 	u, has := flattenUserID(uid)
+	// durations cross the JSON text through Duration.String/ParseDuration: concrete choices
+	nRepeat, wRepeat := time.Hour, time.Hour
+	if c05bool("notice.norepeat") {
+		nRepeat = 0
+	}
+	if c05bool("warning.alwaysrepeat") {
+		wRepeat = 0
+	}
 	notice := &Notice{id: "7", userID: uid, noticeType: WarningNotice, key: "k", firstOccurred: nLast, lastOccurred: nLast, lastRepeated: nLast,
-		occurrences: occ, repeatAfter: time.Hour, expireAfter: 1000000 * time.Hour, lastData: map[string]string{"a": "b"}}
+		occurrences: occ, repeatAfter: nRepeat, expireAfter: 1000000 * time.Hour, lastData: map[string]string{"a": "b"}}
 	st.notices[noticeKey{has, u, WarningNotice, "k"}] = notice
 	st.lastNoticeTimestamp = c05time("lastNoticeTimestamp")
 	wLast := c05time("warning.last")
-	st.warnings["w"] = &Warning{message: "w", firstAdded: wLast, lastAdded: wLast, expireAfter: 1000000 * time.Hour, repeatAfter: time.Hour}
+	st.warnings["w"] = &Warning{message: "w", firstAdded: wLast, lastAdded: wLast, expireAfter: 1000000 * time.Hour, repeatAfter: wRepeat}
 	// the id counters are at least what was handed out, possibly more (objects pruned meanwhile)
 	extra := zz.NondetInt("extra-ids")
 	zz.Assume(zz.And(extra >= 0, extra < 1000))
@@ -164,7 +225,7 @@ func Harness_C05_RoundTrip() {
 	n2 := st2.notices[noticeKey{has, u, WarningNotice, "k"}]
 	zz.Assert(n2 != nil, "C05/notice-present")
 	if n2 != nil {
-		zz.Assert(n2.id == "7" && n2.key == "k" && n2.noticeType == WarningNotice && n2.repeatAfter == time.Hour && n2.expireAfter == 1000000*time.Hour && n2.lastData["a"] == "b", "C05/notice-fields")
+		zz.Assert(n2.id == "7" && n2.key == "k" && n2.noticeType == WarningNotice && n2.repeatAfter == nRepeat && n2.expireAfter == 1000000*time.Hour && n2.lastData["a"] == "b", "C05/notice-fields")
 		zz.Assert(zz.And(n2.occurrences == occ, zz.And(n2.lastRepeated.Equal(nLast), zz.And(n2.firstOccurred.Equal(nLast), n2.lastOccurred.Equal(nLast)))), "C05/notice-times-and-count")
 		if uid != nil {
 			zz.Assert(n2.userID != nil, "C05/notice-user-present")
@@ -179,7 +240,7 @@ func Harness_C05_RoundTrip() {
 	zz.Assert(w2 != nil, "C05/warning-present")
 	if w2 != nil {
 		zz.Assert(zz.And(w2.lastAdded.Equal(wLast), w2.firstAdded.Equal(wLast)), "C05/warning-times")
-		zz.Assert(w2.expireAfter == 1000000*time.Hour && w2.repeatAfter == time.Hour, "C05/warning-durations")
+		zz.Assert(w2.expireAfter == 1000000*time.Hour && w2.repeatAfter == wRepeat, "C05/warning-durations")
 	}
 	zz.Assert(st2.lastNoticeTimestamp.Equal(st.lastNoticeTimestamp), "C05/last-notice-timestamp")
 	zz.Assert(zz.And(zz.And(st2.lastTaskId == st.lastTaskId, st2.lastChangeId == st.lastChangeId), zz.And(st2.lastLaneId == st.lastLaneId, st2.lastNoticeId == st.lastNoticeId)), "C05/id-counters")
